@@ -35,8 +35,7 @@ ASSUMPTIONS = [
     "cells have |det| >= 1e-6; no isolated vertices",
     "scale factors in [1e-6, 1e6] (a third tiny <= 1e-3, a third huge >= 1e3), translations within [-20, 20]^3 on the unit-size mesh "
     "(tolerances: rel. 1e-9 of the quantity + 1e-12 L^p with L the coordinate magnitude of the mesh at hand)",
-    "face_circumcenter is evaluated only when every triangle has 2*area >= 1e-10 unless PENDING['circumcenter_tiny'] (defect C07-4); a second "
-    "interpolation into an already used output attribute is asserted only with PENDING['reused_output'] (defect C07-5)",
+    "the oracles for defects C07-4 (face_circumcenter on tiny triangles) and C07-5 (second interpolation into a used output attribute) are active: both were fixed in /repo (8e7d4c7, 966792b)",
     "persistent calls on one mesh use pairwise distinct attribute names (re-creating an existing name is C05's subject)",
     "vertex_normals(mode) is evaluated only on meshes where |sum w n| / sum w >= 0.05 at every vertex (well-defined direction; a folded "
     "vertex star whose normals cancel is a degenerate element)",
